@@ -157,10 +157,24 @@ class SokobanH(Harness):
 
     def reward_law(self, st, act, ns, ts, legal):
         n0, n1 = self._on_targets(st), self._on_targets(ns)
-        return [("reward == Phi(S') - Phi(S), Phi = boxes on targets - 0.1*steps (+10 at completion)" if not self.sparse() else
-                 "sparse reward == 10*[all four boxes on targets]", vs(ts.reward) == self._step_reward(n0, n1)),
-                ("completion bonus / LAST by completion only when 4 cells hold a BOX over a TARGET",
-                 ((vs(ts.step_type) == 2) & (vs(st.step_count) + 1 < self.T)).implies(n1 == N_BOXES))]
+        ob = [("reward == Phi(S') - Phi(S), Phi = boxes on targets - 0.1*steps (+10 at completion)" if not self.sparse() else
+               "sparse reward == 10*[all four boxes on targets]", vs(ts.reward) == self._step_reward(n0, n1)),
+              ("completion bonus / LAST by completion only when 4 cells hold a BOX over a TARGET",
+               ((vs(ts.step_type) == 2) & (vs(st.step_count) + 1 < self.T)).implies(n1 == N_BOXES))]
+        # "+1 for each box moved onto a target, -1 for each box moved off a target", stated PER CELL (the sum over the cells,
+        # i.e. count(S') - count(S) = [pushed box lands on a target] - [pushed box leaves a target], is arithmetic outside
+        # the solver; the summed form is a global-cardinality query: unknown at 300 s)
+        f0, v0, f1, v1 = vs(st.fixed_grid), vs(st.variable_grid), vs(ns.fixed_grid), vs(ns.variable_grid)
+        ok, push, (r1, c1), (r2, c2) = self._move(st, act)
+        for i in range(G):
+            cs = []
+            for j in range(G):
+                was, now = (v0[i, j] == BOX) & (f0[i, j] == TARGET), (v1[i, j] == BOX) & (f1[i, j] == TARGET)
+                lands = push & (r2 == i) & (c2 == j) & (f0[i, j] == TARGET)
+                leaves = push & (r1 == i) & (c1 == j) & (f0[i, j] == TARGET)
+                cs.append(now.astype(np.int32) - was.astype(np.int32) == lands.astype(np.int32) - leaves.astype(np.int32))
+            ob.append((f"row {i}: [box on target] changes per cell by [the pushed box lands here] - [the pushed box leaves here]", all_(cs)))
+        return ob
 
     REF_DRAWS = True   # ref_step reads S' ONLY to count boxes on targets (see below); nothing depends on randomness
 
